@@ -407,7 +407,14 @@ class NPModel(NSModel):
             "dtype": B("np.dtype", lambda x: x),
         }
         NSModel.__init__(self, "numpy", tab)
-        self.linalg = NSModel("numpy.linalg", {})
+        def _norm(a, ord=None, axis=None, keepdims=False):
+            # Euclidean norm only (the default of numpy.linalg.norm for vectors / with an axis)
+            if ord not in (None, 2):
+                raise _imp().Unsupported("numpy.linalg.norm with ord=%r" % (ord,))
+            a = to_array(a)
+            sq = self._ew_out(lambda x: _imp().scalar_binop("Mult", x, x), None, a)
+            return self._ew_out(t_unary("sqrt"), None, self.reduce("sum", sq, axis, keepdims))
+        self.linalg = NSModel("numpy.linalg", {"norm": B("np.linalg.norm", _norm)})
         tab["linalg"] = self.linalg
         tab["random"] = I.Opaque("numpy.random")
 
